@@ -537,6 +537,32 @@ def part_grid(ctx):
     ctx.domain("boundary values x raw values (13) for the five classes", n)
 
 
+def part_zeros(ctx):
+    """signed zeros decoded one after the other in one process keep their own sign (value, raw_value, repr, copy)"""
+    import struct
+    from space_packet_parser import packets
+    from space_packet_parser.xtce import encodings, parameter_types, parameters
+    n = 0
+    for bits, fmt in ((16, ">e"), (32, ">f"), (64, ">d")):
+        param = parameters.Parameter("P", parameter_types.FloatParameterType("T", encodings.FloatDataEncoding(bits)))
+        for seq in ([0.0, -0.0, 0.0, -0.0], [-0.0, 0.0, -0.0], [1.5, 0.0, -1.5, -0.0, 2.5]):
+            for x in seq:
+                pkt = packets.CCSDSPacket(raw_data=struct.pack(fmt, x))
+                param.parse(pkt)
+                v = pkt["P"]
+                ctx.count()
+                n += 1
+                ctx.nontrivial_distinct()
+                ctx.cls("decoded signed zeros in sequence")
+                case = {"ptype": "float", "bits": bits, "data": struct.pack(fmt, x).hex(), "sequence": [repr(y) for y in seq]}
+                for what, got in (("value", float(v)), ("raw_value", float(v.raw_value)), ("copy", float(copy.copy(v))),
+                                  ("pickle", float(pickle.loads(pickle.dumps(v))))):
+                    if not same(got, x) or repr(got) != repr(x):
+                        return ctx.fail("decoded-zero-sign", f"{bits}-bit float {x!r} decoded in the sequence {seq}: {what} is "
+                                                             f"{got!r}", case, bucket="decoded-zero-sign")
+    ctx.domain("signed-zero sequences x float widths", n)
+
+
 def part_packets(ctx, examples):
     hyp_run(ctx, gen_packet(), check_packet, examples)
 
@@ -545,15 +571,15 @@ def part_decoded(ctx, examples):
     hyp_run(ctx, gen_decoded(), check_decoded, examples)
 
 
-PARTS = {"values": part_values, "grid": part_grid, "packets": part_packets, "decoded": part_decoded}
-REPLAY = {"values": check_value, "grid": check_value, "packets": check_packet, "decoded": check_decoded}
+PARTS = {"values": part_values, "grid": part_grid, "zeros": part_zeros, "packets": part_packets, "decoded": part_decoded}
+REPLAY = {"values": check_value, "grid": check_value, "zeros": lambda ctx, case: part_zeros(ctx), "packets": check_packet, "decoded": check_decoded}
 KNOWN = {}
 FLOORS = {"value falsy raw given": ("", 0.05), "packet nontrivial": ("packet", 0.15)}
 
 
 def plan(tier, seed):
     q = tier == "quick"
-    tasks = [("grid", {})]
+    tasks = [("grid", {}), ("zeros", {})]
     for _ in range(8):
         tasks.append(("values", {"examples": 1000 if q else 8000}))
     for _ in range(5):
